@@ -23,8 +23,8 @@ import (
 	"fmt"
 	"math"
 	"os"
+	"reflect"
 	"regexp"
-	"runtime/debug"
 	"sort"
 	"strconv"
 	"strings"
@@ -42,7 +42,6 @@ var caseTimeout = 20 * time.Second
 
 func main() {
 	zerolog.SetGlobalLevel(zerolog.Disabled)
-	debug.SetMaxStack(256 << 20)
 	if len(os.Args) < 2 {
 		fmt.Fprintln(os.Stderr, "usage: vh-kfl ast|eval|entry|reuse|num")
 		os.Exit(2)
@@ -443,6 +442,24 @@ func evalObserved(expr *kfl.Expression, record string) (o evalObs) {
 	return evalObs{Class: "ok", Truth: truth, Rec: hex.EncodeToString([]byte(nj))}
 }
 
+// sameObs: same outcome class and truth, and the same returned record as a JSON value (the
+// serialiser writes object members in map order, so the texts may differ)
+func sameObs(a, b evalObs) bool {
+	if a.Class != b.Class || a.Truth != b.Truth {
+		return false
+	}
+	if a.Rec == b.Rec {
+		return true
+	}
+	ra, _ := hex.DecodeString(a.Rec)
+	rb, _ := hex.DecodeString(b.Rec)
+	var va, vb interface{}
+	if json.Unmarshal(ra, &va) != nil || json.Unmarshal(rb, &vb) != nil {
+		return false
+	}
+	return reflect.DeepEqual(va, vb)
+}
+
 type reuseOut struct {
 	Outcome    string      `json:"outcome"` // ok | error (query does not prepare) | panic
 	Msg        string      `json:"msg,omitempty"`
@@ -523,7 +540,7 @@ func doReuse(query string, records []string) (out reuseOut) {
 			for k := 0; k < rounds; k++ {
 				for j := 0; j < n; j++ {
 					i := (j + g) % n
-					if evalObserved(shared, records[i]) != out.Fresh[i] {
+					if !sameObs(evalObserved(shared, records[i]), out.Fresh[i]) {
 						bad++
 					}
 				}
